@@ -2,7 +2,8 @@
   C13 model — peering (`kopf/_core/engines/peering.py`), core Lean only, integer ticks.
 
   * `mkPeer`     = `Peer.__init__(identity=…, **opinfo)` incl. defaults (priority 0, lifetime 60,
-                   lastseen = now), `int(lifetime)`, and the ways a garbled record makes it raise;
+                   lastseen = now), `int(lifetime)`, and the ways a garbled record makes it raise (also the
+                   OverflowError of a lifetime beyond `timedelta`'s range or a deadline beyond year 9999);
   * `decide`     = `process_peering_event` as a function of (status content, own identity/priority,
                    toggle state, clock): who is dead (`lastseen + lifetime ≤ now`), which dead peers
                    are cleaned (never the own record), the toggle, the delays to the deadlines of
@@ -13,7 +14,8 @@
                    the CURRENT status (an idealisation: the code always sees a somewhat older one), `deliverStale i view` an
                    older view whose `clean()` lands on the current status (findings F4, F5); `exit` is the proper order of a
                    graceful stop, `exitBegin`/`exitEnd` the order the code has (withdrawal first, handling stops last: F7),
-                   `exitLost` a withdrawal the API refused.
+                   `exitLost` a withdrawal the API refused; `wake` = the sleeping call wakes and its self-touch lands at once,
+                   `wakeIssue` … `land` the same with the request in flight for a while (it may land after the withdrawal: F9).
 
   Time: `Tick = Int`; `u` = ticks per second (the harness uses 64); lifetimes are whole seconds.
 -/
@@ -25,7 +27,7 @@ abbrev Identity := String
 abbrev Tick := Int
 
 inductive Err where
-  | typeError | valueError | attrError
+  | typeError | valueError | attrError | overflowError
   deriving DecidableEq, Repr
 
 /-! ### Python `int(x)` on a parsed JSON value -/
@@ -106,28 +108,46 @@ def prioReprErr : Option J → Option Err
   | none => none
   | some v => match pyInt v with | .ok _ => none | .error e => some e
 
-def mkPeer (now : Int) (i : Identity) : RawEntry → Except Err Peer
+/-- `datetime.timedelta(seconds=n)` exists iff its days fit: `|days| ≤ 999999999` (else OverflowError) -/
+def tdOk (n : Int) : Bool := decide (-86399999913600 ≤ n ∧ n ≤ 86399999999999)
+
+/-- `datetime.min` and the first instant after `datetime.max`, in seconds since the epoch the ticks are counted from
+    (the harness' simulation epoch 2030-01-01T00:00:00Z) -/
+def dtMinS : Int := -64029052800
+def dtEndS : Int := 251508844800
+
+/-- `lastseen + lifetime` is a `datetime` (years 1 … 9999; else OverflowError "date value out of range") -/
+def dtOk (u : Int) (t : Int) : Bool := decide (dtMinS * u ≤ t ∧ t < dtEndS * u)
+
+/-- `Peer.__init__` in its order of evaluation: `int(lifetime)`, `timedelta(seconds=…)`, `parse_date(lastseen)`,
+    `lastseen + lifetime`. -/
+def mkPeer (u : Int) (now : Int) (i : Identity) : RawEntry → Except Err Peer
   | .notMapping => .error .typeError
   | .record r =>
     if r.identityKey then .error .typeError else
     match (match r.lifetime with | none => Except.ok (60 : Int) | some v => pyInt v) with
     | .error e => .error e
     | .ok l =>
+      if !tdOk l then .error .overflowError else
       match r.lastseen with
       | .bad => .error .valueError
-      | .absent => .ok { id := i, prio := (match r.priority with | none => some 0 | some v => prioView v),
-                         lifetime := l, lastseen := now, reprErr := prioReprErr r.priority }
-      | .at t => .ok { id := i, prio := (match r.priority with | none => some 0 | some v => prioView v),
-                       lifetime := l, lastseen := t, reprErr := prioReprErr r.priority }
+      | .absent =>
+        if !dtOk u (now + l * u) then .error .overflowError else
+        .ok { id := i, prio := (match r.priority with | none => some 0 | some v => prioView v),
+              lifetime := l, lastseen := now, reprErr := prioReprErr r.priority }
+      | .at t =>
+        if !dtOk u (t + l * u) then .error .overflowError else
+        .ok { id := i, prio := (match r.priority with | none => some 0 | some v => prioView v),
+              lifetime := l, lastseen := t, reprErr := prioReprErr r.priority }
 
 /-- `[Peer(identity=opid, **opinfo) for opid, opinfo in pairs.items()]`: the first failure wins. -/
-def parseAll (now : Int) : List (Identity × RawEntry) → Except Err (List Peer)
+def parseAll (u : Int) (now : Int) : List (Identity × RawEntry) → Except Err (List Peer)
   | [] => .ok []
   | (i, e) :: rest =>
-    match mkPeer now i e with
+    match mkPeer u now i e with
     | .error x => .error x
     | .ok p =>
-      match parseAll now rest with
+      match parseAll u now rest with
       | .error x => .error x
       | .ok ps => .ok (p :: ps)
 
@@ -200,7 +220,7 @@ def decideP (u : Int) (ps : List Peer) (me : Identity) (myPrio : Int) (autoclean
 /-- the whole call on a status that is a mapping. -/
 def decideEv (u : Int) (status : List (Identity × RawEntry)) (me : Identity) (myPrio : Int) (autoclean : Bool)
     (toggle : Option Bool) (now now2 : Int) : Except Err Decision :=
-  match parseAll now status with
+  match parseAll u now status with
   | .error e => .error e
   | .ok ps => decideP u ps me myPrio autoclean toggle now now2
 
@@ -284,6 +304,7 @@ structure Op where
   sleeping : Bool := false    -- a `process_peering_event` call sleeps towards a deadline and will self-touch on waking
   nextKA : Option Int := none -- ghost: the latest moment the pinger starts its next `touch()` (last landing + longest sleep)
   exiting : Bool := false     -- asked to stop: pinger and peering observer are gone, the resource watchers still deplete
+  inflight : Option Int := none -- a self-touch of a `process_peering_event` call, ISSUED (stamped then), not yet applied by the API
   deriving Repr, DecidableEq
 
 structure State where
@@ -308,6 +329,8 @@ inductive Label where
   | expire (j : Identity)                        -- time passes up to the latest deadline of j's record(s)
   | foreign (j : Identity) (r : Option Rec)      -- anybody else writes / removes a record
   | wake (i : Identity) (lag : Nat)              -- the sleeping call of i wakes undisturbed; its self-touch lands
+  | wakeIssue (i : Identity)                     -- the same in two steps: the call wakes and ISSUES its self-touch (stamped now) …
+  | land (i : Identity)                          -- … which the API applies now, whatever has happened to i meanwhile (finding F9)
   deriving Repr
 
 def updOp (ops : Identity → Option Op) (i : Identity) (o : Op) : Identity → Option Op :=
@@ -409,6 +432,21 @@ def step (u : Int) (s : State) : Label → Option State
                       ops := updOp s.ops i { o with sleeping := false } }
       else none
     | none => none
+  | .wakeIssue i =>
+    -- the PATCH is on its way; nothing the operator does afterwards (stop, kill) takes it back
+    match s.ops i with
+    | some o => if o.sleeping && o.inflight.isNone then
+        some { s with ops := updOp s.ops i { o with sleeping := false, inflight := some s.now } }
+      else none
+    | none => none
+  | .land i =>
+    match s.ops i with
+    | some o =>
+      match o.inflight with
+      | some t => some { s with ver := s.ver + 1, status := s.status.patch i (touchVal u o.prio o.lifetime t),
+                                ops := updOp s.ops i { o with inflight := none } }
+      | none => none
+    | none => none
 
 def run (u : Int) : State → List Label → Option State
   | s, [] => some s
@@ -455,6 +493,8 @@ def Allowed (u B : Int) (s : State) : Label → Prop
       latestDeadline u s.status j s.now ≤ k + B
   | .deliverStale i view => ∀ o, s.ops i = some o → benignView u s i o.prio view = true   -- old views only if benign
   | .exitBegin _ => False          -- timely runs exit in the proper order (`exit`)
+  | .wakeIssue _ => False          -- … and their self-touches land at once (`wake`)
+  | .land _ => False
   | .foreign j _ => s.ops j = none
   | _ => True
 
@@ -462,6 +502,32 @@ def Allowed (u B : Int) (s : State) : Label → Prop
 inductive Timely (u B : Int) : State → Prop where
   | init : Timely u B init
   | step {s s' : State} (l : Label) : Timely u B s → Allowed u B s l → step u s l = some s' → Timely u B s'
+
+/-- What may happen between a loss / an exit and the settling (guard of the failover theorems): time passes; the running
+    operators renew, their sleeping calls wake and self-touch, they process the CURRENT status. Not in it: starts, stops,
+    kills, foreign writes, older views (`deliverStale`; a benign one is a `deliver`: `benign_stale_eq_deliver`). -/
+def Quiet : Label → Prop
+  | .tick _ | .expire _ | .keepalive _ _ | .wake _ _ | .deliver _ => True
+  | _ => False
+
+/-- the same label with the view replaced by the current status -/
+def Label.current : Label → Label
+  | .deliverStale i _ => .deliver i
+  | l => l
+
+/-- every older view processed along the run `ls` from `s` is benign (`benignView`, judged in the state where it is
+    processed); nothing is asked of the other labels -/
+def benignRun (u : Int) : State → List Label → Bool
+  | _, [] => true
+  | s, l :: ls =>
+    (match l with
+     | .deliverStale i view => (match s.ops i with | some o => benignView u s i o.prio view | none => true)
+     | _ => true) &&
+    (match step u s l with | some s1 => benignRun u s1 ls | none => true)
+
+/-- a sleeping `process_peering_event` call belongs to a running operator (an invariant of every reachable state:
+    `sleepAlive_reachable`; stated as a hypothesis where a theorem starts from an arbitrary state) -/
+def SleepAlive (s : State) : Prop := ∀ i o, s.ops i = some o → o.sleeping = true → o.alive = true
 
 /-- One round of the pinger (`keepalive`'s loop body). The record built at `t` (lastseen = `t`) reaches the server `a`
     ticks later; the whole `touch()` call takes `lat ≥ a`; then the pinger sleeps `kaSleepT` ticks. -/
